@@ -40,13 +40,14 @@ theorem fmtTop_eq (fst : FState) (t : Ty) (v : Val) (hp : plainTy t = true) (hv 
     cases es <;> simp_all [bareEmpty, fmtValue, finish, Val.isNull]
   | union tag inner =>
     cases t <;> simp_all [wfVal, fmtValue, finish, Val.isNull]
-  | error v' => cases t <;> simp_all [wfVal, plainTy]
+  | error v' => cases t <;> simp_all [wfVal, plainTy, fmtValue, finish, Val.isNull]
   | named v' => cases t <;> simp_all [wfVal, plainTy]
 
 theorem roundtrip_plain (fst : FState) (a0 : AState) (t : Ty) (v : Val)
-    (hp : plainTy t = true) (hw : wfTy t = true) (hv : wfVal t v = true) (hb : bareEmpty v = false) :
+    (hp : plainTy t = true) (hw : wfTy t = true) (hv : wfVal t v = true) (hb : bareEmpty v = false)
+    (he : errOK v = true) :
     (fmtTop fst t v).1 = fst ∧ analyzeTop a0 (fmtTop fst t v).2 = .ok (a0, (t, v)) := by
-  obtain ⟨any, ds, hf, _, hA, _⟩ := goodV_all v t false hp hw hv (implied t) fst a0
+  obtain ⟨any, ds, hf, _, hA, _⟩ := goodV_all v t false hp hw hv he (implied t) fst a0
   rw [fmtTop_eq fst t v hp hv hb, hf]
   refine ⟨rfl, ?_⟩
   simp only [analyzeTop, hA, Except.map, expA, Bool.false_and, if_false, Bool.false_eq_true]
@@ -119,7 +120,7 @@ theorem implied_ds (fst : FState) (t : Ty) (v : Val) (pi e : Bool) (hi : implied
     | _ => simp [wfVal] at hv
   | error v' =>
     cases t with
-    | error u => simp [plainTy] at hp
+    | error u => simp [fmtValue, finish, decorateM_plain _ _ false hp, hd]
     | _ => simp [wfVal] at hv
   | named v' =>
     cases t with
@@ -128,8 +129,9 @@ theorem implied_ds (fst : FState) (t : Ty) (v : Val) (pi e : Bool) (hi : implied
 
 /-- in the plain fragment the syntax written does not depend on the typedef state. -/
 theorem fmtTop_state_irrelevant (fst1 fst2 : FState) (a0 : AState) (t : Ty) (v : Val)
-    (hp : plainTy t = true) (hw : wfTy t = true) (hv : wfVal t v = true) (hb : bareEmpty v = false) :
+    (hp : plainTy t = true) (hw : wfTy t = true) (hv : wfVal t v = true) (hb : bareEmpty v = false)
+    (he : errOK v = true) :
     analyzeTop a0 (fmtTop fst1 t v).2 = analyzeTop a0 (fmtTop fst2 t v).2 := by
-  rw [(roundtrip_plain fst1 a0 t v hp hw hv hb).2, (roundtrip_plain fst2 a0 t v hp hw hv hb).2]
+  rw [(roundtrip_plain fst1 a0 t v hp hw hv hb he).2, (roundtrip_plain fst2 a0 t v hp hw hv hb he).2]
 
 end Zed.Zson
